@@ -145,7 +145,7 @@ func init() {
 		rn("C06", "compiler/expressions.go", "funcContext.fixNumber", "value", "v"),
 		rn("C14", "compiler/expressions.go", "funcContext.translateConversion", "exprType", "srcType"),
 		rn("C09", "compiler/decls.go", "funcContext.methodListEntry", "pkgPath", "pp"),
-		rn("C11", "compiler/expressions.go", "funcContext.internalize", "s", "src"),
+		rn("C11", "compiler/expressions.go", "funcContext.internalize", "u", "und"),
 		rn("C03", "compiler/statements.go", "funcContext.translateStmt", "channels", "chans"),
 		rn("C13", "nosync/mutex.go", "WaitGroup.Add", "delta", "d"),
 	)
